@@ -390,3 +390,29 @@ package forwarder
 //@ requires hp != nil && hp.config != nil && hp.config.MITMDomains != nil && req != nil && req.URL != nil
 //@ pure
 //@ ensures result == matcherHit(hp.config.MITMDomains, urlHostname(req.URL))
+
+// ---- order of the inner request modifiers (C01, C16): configured rules first ----
+
+// (constructors of modifiers and loggers: they allocate, nothing else)
+//@ pure (*forwarder.HTTPProxy).allowWithinTimeFrame (*forwarder.HTTPProxy).basicAuth (*forwarder.HTTPProxy).denyLocalhost (*forwarder.HTTPProxy).denyDomains (*forwarder.HTTPProxy).injectKerberosSPNEGOAuthentication (*forwarder.HTTPProxy).injectKerberosUpstreamProxyAuthorizationHeader httplog.NewStructuredLogger (*httplog.Logger).LogFunc middleware.NewPrometheus (time.Weekday).String (time.Time).String (time.Time).UTC
+//@ func (*fifo.Group).ToImmutable
+//@ trusted
+//@ pure
+//@ ensures result != nil
+
+// middlewareStack: the User-Agent placeholder is the last request modifier of
+// the inner group - it runs after every configured modifier (header rules
+// among them) and after the site credentials, so a rule that removes
+// User-Agent cannot bring the transport's default User-Agent back. (That the
+// configured modifiers keep their order in front of it needs a frame on the
+// modifier lists that the solvers did not discharge robustly; not claimed.)
+//@ func (*HTTPProxy).middlewareStack
+//@ property C01 C16
+//@ requires hp != nil && hp.config != nil && hp.log != nil
+//@ modifies *, lastInner()
+//@ ensures lastInner() != nil && len(lastInner().reqmods) >= 1
+//@ ensures (lastInner().reqmods[len(lastInner().reqmods) - 1] is martian.RequestModifierFunc) && lastInner().reqmods[len(lastInner().reqmods) - 1].(martian.RequestModifierFunc) == setEmptyUserAgent
+//@ loop 1:
+//@   invariant fg == lastInner() && fg != nil && hp != nil && hp.log != nil && hp.config != nil
+//@ loop 2:
+//@   invariant fg == lastInner() && fg != nil && hp != nil && hp.log != nil && hp.config != nil
